@@ -83,7 +83,12 @@ func runColdStart(a *args) {
 		res := make([]vr, k)
 		objs := make([]Obj, k)
 		for i := 0; i < k; i++ {
+			// one version per process: all callers race for the same package's first use
+			want := verOrder[int(a.Seed)&3]
 			s := sts[(int(a.Seed)*31+i*37)%len(sts)]
+			for j := 0; s.Ver != want && j < len(sts); j++ {
+				s = sts[(int(a.Seed)*31+i*37+j*101)%len(sts)]
+			}
 			o := versions[s.Ver].Zero()
 			for j, m := range s.Order {
 				o.Set(m, s.O[j])
@@ -110,7 +115,8 @@ func runColdStart(a *args) {
 		return
 	case "C03":
 		tb := loadV3Tables(a.In)
-		for _, vn := range []string{"3.0", "3.1"} {
+		// one version per process (all callers race for the SAME package's first use); the driver alternates the seed
+		for _, vn := range []string{[]string{"3.0", "3.1"}[int(a.Seed)&1]} {
 			i := 0
 			for _, av := range tb.vals["AV"] {
 				for _, c := range tb.vals["C"] {
